@@ -4,13 +4,14 @@ Import ListNotations.
 
 Inductive exn :=
 | ValueError | AssertionError | TypeError | IndexError | ZeroDivisionError
-| NotImplementedError | OtherError.
+| NotImplementedError | OtherError
+| Uncertified.   (* model only: a certificate check inside the model failed (DESIGN 2); never an implementation outcome *)
 
 Definition exn_eqb (a b : exn) : bool :=
   match a, b with
   | ValueError, ValueError | AssertionError, AssertionError | TypeError, TypeError
   | IndexError, IndexError | ZeroDivisionError, ZeroDivisionError
-  | NotImplementedError, NotImplementedError | OtherError, OtherError => true
+  | NotImplementedError, NotImplementedError | OtherError, OtherError | Uncertified, Uncertified => true
   | _, _ => false
   end.
 
